@@ -44,11 +44,13 @@ pub struct Failure {
     pub message: String,
     /// concrete, self-contained description of the failing case (replayable by the module)
     pub case: Value,
+    /// a saved fuzzer input that is the replay file itself (C19, C01 fuzz campaign)
+    pub artifact: Option<std::path::PathBuf>,
 }
 
 impl Failure {
     pub fn new(kind: impl Into<String>, message: impl Into<String>, case: Value) -> Failure {
-        Failure { kind: kind.into(), message: message.into(), case }
+        Failure { kind: kind.into(), message: message.into(), case, artifact: None }
     }
 }
 
@@ -473,6 +475,11 @@ impl Run {
         let mut violation_lines = vec![];
         let _ = std::fs::create_dir_all(format!("{VERIF_ROOT}/replays"));
         for f in &failures {
+            if let Some(a) = &f.artifact {
+                println!("  failure kind={} : {}", f.kind, f.message);
+                violation_lines.push(format!("VIOLATION property={} replay={}", self.id, a.display()));
+                continue;
+            }
             let body = json!({
                 "property": self.id, "kind": f.kind, "message": f.message, "case": f.case,
                 "seed": self.seed, "tier": self.tier.name(),
